@@ -201,6 +201,56 @@ theorem C13_part_lookup_fallback (p : Package) (rels : Rels) (ty base fb : Str)
   dsimp only
   rw [c13_filter_none p.exists _ (by simpa [List.all_map] using hnone)]
 
+/-! ## 3b. relationship types of Strict Open XML (repair F13) -/
+
+/-- A relationship type written with the Strict prefix is read as the Transitional type with the same last segment, and a
+    Transitional type is read as it is: `http://purl.oclc.org/ooxml/officeDocument/relationships/styles` and
+    `http://schemas.openxmlformats.org/officeDocument/2006/relationships/styles` are the same type to the reader. -/
+theorem C13_strict_relationship_type (name : Str) :
+    normRelType (relTypeStrict ++ name) = relTypeTransitional ++ name ∧
+    normRelType (relTypeTransitional ++ name) = relTypeTransitional ++ name := by
+  constructor <;> simp [normRelType, relTypeStrict, relTypeTransitional, startsWith]
+
+/-- a `Relationship` element with the given id, target and type -/
+def c13_relEl (pre : Str) (r : Str × Str × Str) : XmlNode :=
+  .elem S!"relationships:Relationship" [(S!"Id", r.1), (S!"Target", r.2.1), (S!"Type", pre ++ r.2.2)] []
+
+/-- what the reader makes of a list of such elements: one relationship each, the type normalised -/
+theorem C13_read_relationships (pre : Str) (rs : List (Str × Str × Str)) :
+    readRelsXml (rs.map (c13_relEl pre)) = .ok (rs.map fun r => ⟨r.1, r.2.1, normRelType (pre ++ r.2.2)⟩) := by
+  unfold readRelsXml
+  induction rs with
+  | nil => rfl
+  | cons r rs ih =>
+    have h : findChildren S!"relationships:Relationship" (List.map (c13_relEl pre) (r :: rs))
+        = ([(S!"Id", r.1), (S!"Target", r.2.1), (S!"Type", pre ++ r.2.2)], [])
+          :: findChildren S!"relationships:Relationship" (List.map (c13_relEl pre) rs) := by
+      simp [c13_relEl, findChildren]
+    rw [h, List.mapM_cons, ih]
+    have h1 : attr? S!"Id" [(S!"Id", r.1), (S!"Target", r.2.1), (S!"Type", pre ++ r.2.2)] = some r.1 := by
+      simp [attr?, lookupLast]
+    have h2 : attr? S!"Target" [(S!"Id", r.1), (S!"Target", r.2.1), (S!"Type", pre ++ r.2.2)] = some r.2.1 := by
+      simp [attr?, lookupLast]
+    have h3 : attr? S!"Type" [(S!"Id", r.1), (S!"Target", r.2.1), (S!"Type", pre ++ r.2.2)] = some (pre ++ r.2.2) := by
+      simp [attr?, lookupLast]
+    simp only [h1, h2, h3]
+    rfl
+
+/-- Hence a relationships part whose `Type` attributes are spelled Strict reads to the same relationships as the one spelled
+    Transitional (same ids and targets), for every list of relationships: parts are located through relationships in Strict
+    packages exactly as in Transitional ones (`C13_part_lookup` is about the relationships as read). -/
+theorem C13_strict_relationships_same (rs : List (Str × Str × Str)) :
+    readRelsXml (rs.map (c13_relEl relTypeStrict)) = readRelsXml (rs.map (c13_relEl relTypeTransitional)) := by
+  rw [C13_read_relationships, C13_read_relationships]
+  congr 1
+  apply List.map_congr_left
+  intro r _
+  rw [(C13_strict_relationship_type r.2.2).1, (C13_strict_relationship_type r.2.2).2]
+
+example : readRelsXml [.elem S!"relationships:Relationship"
+      [(S!"Id", S!"r1"), (S!"Target", S!"styles2.xml"), (S!"Type", S!"http://purl.oclc.org/ooxml/officeDocument/relationships/styles")] []]
+    = .ok [⟨S!"r1", S!"styles2.xml", relTypePrefix ++ S!"styles"⟩] := by rfl
+
 /-- A relative target `x` and the absolute target `/base/x` name the same part (`base`, `x`
     non-empty and not starting with `/`), namely `base/x`. -/
 theorem C13_part_relative_absolute (base x : Str) (hb : base.isEmpty = false) (hx : x.isEmpty = false)
